@@ -32,6 +32,8 @@ pub enum CompilerError {
     InvalidLiteralType(Literal, Type),
     /// The constant was declared in the program but not provided during compilation.
     MissingConstant(String, String, MetaInfo),
+    /// The specified function does not have a single input bit (all parameters are zero-sized).
+    NoInputBits(String),
 }
 
 impl PartialOrd for CompilerError {
@@ -55,6 +57,14 @@ impl Ord for CompilerError {
             (CompilerError::InvalidLiteralType(_, _), CompilerError::MissingConstant(_, _, _)) => {
                 std::cmp::Ordering::Less
             }
+            (CompilerError::InvalidLiteralType(_, _), CompilerError::NoInputBits(_)) => {
+                std::cmp::Ordering::Less
+            }
+            (CompilerError::NoInputBits(fn1), CompilerError::NoInputBits(fn2)) => fn1.cmp(fn2),
+            (CompilerError::NoInputBits(_), CompilerError::MissingConstant(_, _, _)) => {
+                std::cmp::Ordering::Less
+            }
+            (CompilerError::NoInputBits(_), _) => std::cmp::Ordering::Greater,
             (
                 CompilerError::MissingConstant(_, _, meta1),
                 CompilerError::MissingConstant(_, _, meta2),
@@ -75,6 +85,9 @@ impl std::fmt::Display for CompilerError {
             }
             CompilerError::MissingConstant(party, identifier, _) => f.write_fmt(format_args!(
                 "The constant {party}::{identifier} was declared in the program but never provided"
+            )),
+            CompilerError::NoInputBits(fn_name) => f.write_fmt(format_args!(
+                "The function '{fn_name}' cannot be compiled to a circuit, because its parameters do not contain a single input bit"
             )),
         }
     }
@@ -247,6 +260,10 @@ impl TypedProgram {
                 input_gates.push(type_size);
                 env.let_in_current_scope(param.name.clone(), wires);
             }
+        }
+        if input_gates.iter().all(|bits| *bits == 0) {
+            // without any input wire there is nothing to derive the constant wires from
+            return Err(vec![CompilerError::NoInputBits(fn_name.to_string())]);
         }
         let builder_opts = CircuitBuilderOptions {
             cache_gates: opts.optimize_duplicate_gates,
